@@ -70,6 +70,7 @@ type c09Case struct {
 	Seed       uint64 `json:"seed"`
 	Mismatch   int    `json:"mismatch,omitempty"` // len(scalars) - len(points)
 	Noise      uint64 `json:"noise,omitempty"`
+	RecvAlias  int    `json:"recv_alias,omitempty"` // element API: k > 0 makes the receiver the (k-1 mod n)-th input element itself
 }
 
 var msmThresholds = []int{49, 129, 321, 769, 1793, 4097, 9217, 20481}
@@ -78,7 +79,7 @@ func genC09(t *rapid.T) c09Case {
 	c := c09Case{
 		API:        rapid.SampledFrom([]string{"element", "element", "bandersnatch", "multiscalar"}).Draw(t, "api"),
 		ScalarMode: rapid.SampledFrom([]string{"uniform", "uniform", "zero", "small", "mixsmall15", "mixsmall5", "recipes", "recipes", "limbs", "onehot", "word", "word"}).Draw(t, "scalars"),
-		PointMode:  rapid.SampledFrom([]string{"pool", "pool", "pool", "dup", "identity", "rep"}).Draw(t, "points"),
+		PointMode:  rapid.SampledFrom([]string{"pool", "pool", "pool", "dup", "identity", "rep", "tieZ"}).Draw(t, "points"),
 		Seed:       rapid.Uint64().Draw(t, "seed"),
 		Mont:       rapid.Bool().Draw(t, "mont"),
 		Noise:      noiseSeedFrom(rapid.Uint64().Draw(t, "noise")),
@@ -105,6 +106,9 @@ func genC09(t *rapid.T) c09Case {
 	c.W = rapid.SampledFrom([]int{4, 5, 6, 7, 8, 9, 10, 11, 12, 13, 14, 15, 16}).Draw(t, "w")
 	if rapid.IntRange(0, 19).Draw(t, "mismatch") == 0 {
 		c.Mismatch = rapid.SampledFrom([]int{-1, 1}).Draw(t, "mismatch_delta")
+	}
+	if c.API == "element" && rapid.IntRange(0, 5).Draw(t, "recv_alias") == 0 {
+		c.RecvAlias = 1 + rapid.IntRange(0, 4000).Draw(t, "recv_k")
 	}
 	return c
 }
@@ -255,12 +259,23 @@ func evalC09(c c09Case, rec *hx.Rec) error {
 			}
 			elems[j] = msmElems[idx]
 			affs[j] = msmAff[idx]
-			if c.PointMode == "rep" {
+			if c.PointMode == "rep" || c.PointMode == "tieZ" {
 				elems[j] = hx.ToImpl(hx.Rep(hx.FromImpl(&msmElems[idx]), 1+j%3, c.Seed+uint64(j)))
 			}
 			if j < ns {
 				sum.Add(sum, new(big.Int).Mul(s, msmLogs[idx]))
 			}
+		}
+	}
+	if c.PointMode == "tieZ" && n >= 2 { // representations whose Z coordinates multiply to exactly 1
+		ptrs := make([]*banderwagon.Element, n)
+		for j := range elems {
+			ptrs[j] = &elems[j]
+		}
+		var one hx.FE
+		one.SetOne()
+		if hx.TieProduct(ptrs, "Z", one) {
+			rec.Label("points=tieZ:established")
 		}
 	}
 	scalCopy := append([]fr.Element(nil), scal...)
@@ -270,15 +285,19 @@ func evalC09(c c09Case, rec *hx.Rec) error {
 	returned, deadlock, dump, perr := hx.Watchdog(msmWatchdog, func() {
 		switch c.API {
 		case "element":
-			var res banderwagon.Element
-			res.SetIdentity()
+			var fresh banderwagon.Element
+			fresh.SetIdentity()
+			res := &fresh
+			if c.RecvAlias > 0 && n > 0 && !mismatch {
+				res = &elems[(c.RecvAlias-1)%n] // the receiver is one of the inputs
+			}
 			var out *banderwagon.Element
 			out, ierr = res.MultiExp(elems, scal, banderwagon.MultiExpConfig{NbTasks: c.NbTasks, ScalarsMont: c.Mont})
 			if ierr == nil {
-				if out != &res {
+				if out != res {
 					ierr = fmt.Errorf("MultiExp did not return its receiver")
 				}
-				got = hx.FromImpl(&res)
+				got = hx.FromImpl(res)
 			}
 		case "bandersnatch":
 			var res bandersnatch.PointProj
@@ -309,6 +328,9 @@ func evalC09(c c09Case, rec *hx.Rec) error {
 	rec.Label("api="+c.API, "scalars="+c.ScalarMode, "points="+c.PointMode, fmt.Sprintf("c=%d", cw), fmt.Sprintf("mont=%v", c.Mont))
 	if splits > 1 {
 		rec.Label("nbSplits>1")
+	}
+	if c.RecvAlias > 0 && c.API == "element" && n > 0 && !mismatch {
+		rec.Label("receiver_is_an_input")
 	}
 	if mismatch {
 		if ierr == nil {
